@@ -670,6 +670,7 @@ Unit = TObj(RUN + "service:ServiceUnit", service=WeakRef, flavour=TAny(), _start
 
 @contract(RUN + "service:ServiceUnit.start", props=["C03"])
 class unit_start:
+    announce = True
     """a live service is marked started and its run method is handed on exactly once in the unit's flavour; a collected one is skipped"""
     params = dict(self=Unit, runner=MetaR)
     has_events = True
@@ -806,3 +807,53 @@ class accept:
                      c.Implies(c.Not(le.isa("Exception")), exc.t == le.t))
 
     raises = {"BaseException": _as_run}
+
+
+# ================================================================================ service sweep / queue flush (C03)
+Units = TSeq(Unit, "set")
+
+
+@contract(RUN + "service:ServiceUnit.units", props=["C03"], skip_body=True, kind="abstract")
+class units_iface:
+    """ServiceUnit.units(): a snapshot of the live units, each once (assumed: set(ws.data) is GIL-atomic; weak references
+    to collected units yield None and are dropped); every unit's flavour is one of the runtime's three"""
+    params = {"cls": None}
+    result = Units
+    fresh_result = True
+
+    def ensures(c, cls, result):
+        return c.And(result.distinct(), c.forall("j", lambda j: c.Implies(c.And(0 <= j, j < result.len), known_flavour(c, result[j].flavour))))
+
+
+ServiceRunnerSweep = TObj(RUN + "service:ServiceRunner", _logger=PyLogger, _meta_runner=MetaR, _must_shutdown=TBool(), _is_shutdown=TEvent, running=TEvent, accept_delay=NumFin)
+
+
+def started(view):
+    return Z.Val.b(view._started.t)
+
+
+@contract(RUN + "service:ServiceRunner._adopt_services#body", props=["C03"], body_key=RUN + "service:ServiceRunner._adopt_services")
+class adopt_services:
+    """one polling cycle: every unit that is not yet started is started (ServiceUnit.start) exactly once; units already
+    started are skipped, so a second cycle cannot start anything twice"""
+    params = dict(self=SvcR)
+    has_events = True
+
+    def writes(c, self):
+        return [("all", "_started", lambda x: True)] + [("all", f, lambda x: True) for f in HEAPS]
+
+    loops = {
+        0: Loop(
+            inv=lambda c, L, i: {"same-runner": c.unchanged(L.self, "_meta_runner", "_logger")},
+            # the snapshot of units being iterated is a fresh set that nobody else can reach: it is not modified
+            modifies=lambda c, L: [("all", "_started", lambda x: True), ("trace",)] + [("all", f, lambda x: x != c.seq.id) for f in HEAPS],
+            local_types={"unit": Unit},
+            # one iteration = one unit: a unit that is already started is skipped (so a second polling cycle cannot start it
+            # twice); a unit that is not yet started is started (ServiceUnit.start, which sets the flag) - exactly one call
+            step=lambda c, L, L0: {
+                "an-already-started-unit-is-skipped": c.Implies(started(c.old(L.unit)), c.no_events()),
+                "a-not-yet-started-unit-is-started-with-this-runtimes-meta-runner": c.Implies(
+                    c.Not(started(c.old(L.unit))), c.event_at(0) == c.event("call", RUN + "service:ServiceUnit.start", L.unit, c.old(L.self)._meta_runner)),
+            },
+        )
+    }
